@@ -16,6 +16,9 @@
 //	     structured hostile families (C07): safety observed here, histories written for Trace_Zone.
 //	zone prefixes <out.ndjson>
 //	     every prefix of every record text of lib/zoo (every RR type), see prefixes.go.
+//	zone insertions <texts.ndjson>
+//	     stray parentheses / quotes / backslashes inserted into the RDATA of every zoo text (texts only: they are
+//	     classified by Gen_Present and come back as "text" vectors for replay).
 //
 // The harness never decides what a zone denotes: it compares with the vector's expected
 // values or logs what it saw for TLC to judge.  What it does decide is what the
@@ -129,6 +132,8 @@ func main() {
 		hostile(os.Args[2])
 	case "prefixes":
 		prefixes(os.Args[2])
+	case "insertions":
+		insertions(os.Args[2])
 	default:
 		hx.Die("unknown mode %s", os.Args[1])
 	}
@@ -651,7 +656,11 @@ func replayText(i int, v *vec, sum *hx.Summary, evw *hx.Writer) bool {
 		cs := map[string]interface{}{"text": v.Text, "ill": v.Ill, "odd": v.Odd, "config": k}
 		safety("text", len(text), &o, timedOut, c, false, sum, cs)
 		if v.Ill != "" && !v.Odd && !timedOut && o.Panic == "" && o.Err == nil {
-			sum.Mis("zone/hostile:ill-formed-accepted:"+v.Ill, fmt.Sprintf("%q is lexically ill-formed (%s) and the parser reported no error after %d records", string(text), v.Ill, o.NRecs), cs)
+			k := "zone/hostile:ill-formed-accepted:" + v.Ill
+			if f := strings.Fields(string(text)); len(f) > 4 && (f[2] == "IN" || f[2] == "CH") { // a record of the zoo: one class per RR type
+				k += ":" + f[3]
+			}
+			sum.Mis(k, fmt.Sprintf("%q is lexically ill-formed (%s) and the parser reported no error after %d records", string(text), v.Ill, o.NRecs), cs)
 		}
 		if evw != nil && i%61 == 0 {
 			evw.Emit(map[string]interface{}{"ev": "parser", "allowed": c.IncAllowed, "chain": false})
@@ -704,7 +713,7 @@ func safety(fam string, n int, o *zg.Observed, timedOut bool, c zg.RunCfg, chain
 	if !c.NoMem {
 		limit := uint64(2048*n + 4<<20)
 		if fam == "generate" {
-			limit += 65536 * 16384 // one record per step, each re-lexed from the template (two 512-octet buffers per token)
+			limit += uint64(o.NRecs+1) * 16384 // per generated record: re-lexed from the template (two 512-octet buffers per token) + the harness' copy
 		}
 		if o.Alloc > limit {
 			sum.Mis("zone/hostile:alloc:"+fam, fmt.Sprintf("%d bytes allocated for %d bytes of input (limit %d)", o.Alloc, n, limit), cs)
